@@ -289,7 +289,7 @@ def main(ck):
     ck.cov["trusted_base"] = ["Coq 8.16.1 kernel + vm_compute (cases evaluation, witnesses, Examples)", "no axioms (Print Assumptions: closed)",
                               "Go harness cmd/c16 (dump, direct oracle, generator), python driver props/C16/run.py (dump -> Coq term)"]
     ck.coq_audit(["C16"])
-    ok = ck.coq_build(["C16/Props.vo", "C16/Refuted.vo", "C16/Corr.vo", "C16/Expand.vo"], timeout=2400)
+    ok = ck.coq_build(["C16/Props.vo", "C16/Refuted.vo", "C16/Corr.vo", "C16/Expand.vo", "C16/ProofsExpandWf.vo"], timeout=2400)
     if ok:
         ck.coq_props(["C16/Props.v", "C16/Refuted.v"])
     binp = ck.go_build("./cmd/c16", "c16")
